@@ -494,13 +494,17 @@ impl<'a, 'b, G: RandomAccessGraph> Iterator for BfsOrderFromRoots<'a, 'b, G> {
         // If we are still in the root phase (distance == 0), return the
         // roots as the first nodes, and re-enqueue them so we visit
         // their successors.
-        if self.distance == 0 {
+        while self.distance == 0 {
             // We always put the None level separator at the end of the
             // queue, so there will always be at least one element.
             let element = self.visit.queue.pop_front().unwrap();
 
             if let Some(node) = element {
-                let node = node.into();
+                let node: usize = node.into();
+                // A root listed more than once is returned only once
+                if self.visit.visited[node] {
+                    continue;
+                }
                 self.visit.visited.set(node, true);
                 self.visit.queue.push_back(element);
                 return Some(IterFromRootsEvent {
